@@ -1,5 +1,6 @@
 /- driver family `valid`: the input validators of Model/Validators.lean on values of the PyVal grammar (C17) -/
 import MagpyVerif.Model.Validators
+import MagpyVerif.Model.CallArgs
 import Driver.Parse
 
 namespace Driver.ValidFam
@@ -59,8 +60,118 @@ def showRes : Except Err Stored → String
   | .error .badUserInput => "err bad"
   | .error (.foreign e) => s!"err foreign:{e}"
 
-def run : P String := do
+
+/-! ### call arguments (Model/CallArgs.lean) -/
+
+def optExc (t : String) : Option String := if t == "-" then Option.none else some t
+
+/-- N | A <nd> <shape…> | X | R:<exc> -/
+def ffOut : P FFOut := do
+  let t ← tok
+  match t with
+  | "N" => pure .none
+  | "X" => pure .notArray
+  | "A" => do
+      let nd ← nat
+      pure (.array (← many nd nat))
+  | _ => if t.startsWith "R:" then pure (.raises (t.drop 2).toString) else throw s!"bad field_func result {t}"
+
+/-- N | NC | OP | F <n> <argnames…> <outB> <outH> -/
+def ffVal : P FFVal := do
   match (← tok) with
+  | "N" => pure .none
+  | "NC" => pure .notCallable
+  | "OP" => pure .unreadable
+  | "F" => do
+      let n ← nat
+      let args ← many n tok
+      let b ← ffOut
+      let h ← ffOut
+      pure (.func args b h)
+  | t => throw s!"bad field_func value {t}"
+
+/-- N | D <exc or -> | SO <own> | X -/
+def styleArg : P StyleArg := do
+  match (← tok) with
+  | "N" => pure .none
+  | "D" => do pure (.dict (optExc (← tok)))
+  | "SO" => do pure (.styleObj (← flag))
+  | "X" => pure .other
+  | t => throw s!"bad style value {t}"
+
+def showErr : Err → String
+  | .badUserInput => "err bad"
+  | .foreign e => s!"err foreign:{e}"
+
+def showUnit : Except Err Unit → String
+  | .ok () => "ok"
+  | .error e => showErr e
+
+def showMode : Mode → String
+  | .warn => "warn" | .raise => "raise" | .ignore => "ignore" | .skip => "skip"
+
+def showIO : IOEff → String
+  | .auto => "auto" | .inside => "inside" | .outside => "outside"
+
+def callArgs (cmd : String) : P (Option String) := do
+  match cmd with
+  | "pixelagg" => do pure (some (showRes (checkPixelAgg NpNames.table (← value))))
+  | "pixelagguse" => do
+      let name ← tok
+      let same ← flag
+      pure (some (if pixelAggUse NpNames.table name same then "ok" else "err later"))
+  | "fieldfunc" => do pure (some (showUnit (validateFieldFunc (← ffVal))))
+  | "setfieldfunc" => do
+      let ed ← flag
+      let old ← ffVal
+      let v ← ffVal
+      let r := setFieldFunc ed old v
+      pure (some (match r.2 with
+        | Option.none => if r.1 == v then "ok assigned" else "ok not-assigned"
+        | some e => showErr e ++ (if r.1 == old then " kept" else " changed")))
+  | "mode" => do
+      pure (some (match validateMode (← value) with
+        | .ok s => showStored s ++ " -> " ++ showMode (modeEffect s)
+        | .error e => showErr e))
+  | "inout" => do
+      let which ← tok
+      pure (some (match inOutCall (which == "tetra") (← value) with
+        | .ok e => "ok " ++ showIO e
+        | .error e => showErr e))
+  | "truth" => do
+      pure (some (match pyTruth (← value) with
+        | .ok b => if b then "ok true" else "ok false"
+        | .error e => showErr e))
+  | "stylesetter" => do pure (some (showUnit (styleSetter (← styleArg))))
+  | "stylector" => do
+      let a ← styleArg
+      let hasKw ← flag
+      let kwNames ← flag
+      let d ← tok
+      pure (some (match styleCtor a hasKw kwNames (optExc d) with
+        | .error e => "ctor-" ++ showErr e
+        | .ok p => match styleRealise p with
+          | .ok () => "ok"
+          | .error e => "late-" ++ showErr e))
+  | "missing" => do
+      let c ← tok
+      let dn ← flag
+      let en ← flag
+      match mkSrc c dn en with
+      | Option.none => throw s!"class {c} is not in the regenerated table"
+      | some o =>
+        pure (some (match level2Checks Setters.dimNames Setters.excNames [o] (fun _ => ()) with
+          | .ok () => "ok"
+          | .error .missingInput => "err missing"
+          | .error (.input e) => showErr e))
+  | _ => pure Option.none
+
+def run : P String := do
+  let t0 ← tok
+  match (← callArgs t0) with
+  | some r => pure r
+  | Option.none =>
+  match t0 with
   | "scalar" => do
       let an ← flag; let fn ← flag
       pure (showRes (checkScalar an fn (← value)))
